@@ -144,7 +144,16 @@ def gen_pattern(rng, names):
     else:
         p = "^" + n + "$"
     p = "".join(c for c in p if c not in "?*+-|()[]{}\\;!@")
-    return p or n
+    return swapcase(rng, p or n)
+
+
+def swapcase(rng, p):
+    """now and then a pattern that differs from the name in the case of one letter (matching is case sensitive)"""
+    idx = [i for i, c in enumerate(p) if c.isalpha()]
+    if idx and rng.random() < 0.12:
+        i = rng.choice(idx)
+        p = p[:i] + p[i].swapcase() + p[i + 1:]
+    return p
 
 
 def gen_glob(rng, names):
@@ -168,7 +177,7 @@ def gen_glob(rng, names):
     else:
         p = n
     p = "".join(c for c in p if c not in "[]\\;!@")
-    return p or n
+    return swapcase(rng, p or n)
 
 
 def gen_forest(rng, nf, is_c, budget, maxdepth):
